@@ -252,6 +252,22 @@ def r4_nesting(ctx):
         if zero:
             f0 = force(st, {zero[0][0]: 0})
             r.check(pushes[0][0] not in f0.reach, "zero-iterations/skipped", "a zero-iteration loop is skipped, not entered", "a zero-iteration loop is entered")
+            # 'an improperly nested loop makes execution fail' — also when it is to run zero times: the nesting comparison must be made on that path too.  Otherwise
+            # the skip over a body that crosses the end of the enclosing loop acts as a jump out of it, and the enclosing loop ends after one pass (D27)
+            if bi not in f0.reach:
+                r.violation("zero-iterations/nesting-unchecked", "with zero iterations the comparison of the new loop's end with the enclosing loop's end is never made: "
+                            "[PushI 0, Loop(3,3), PushI 1, Add, Loop(0,2), Noop, Noop, Noop] yields Some(1) where Loop(1,2) in the same place fails", st.where(bi))
+            else:
+                r.ok("zero-iterations/nesting-checked", "the nesting comparison is made for zero-iteration loops too")
+        # a loop state describes a non-empty range: begin = pc, end = pc + len − 1 needs len ≥ 1, otherwise end < begin, the loop-back `pc = begin` lands behind
+        # `end` with the state still on the stack, and the bookkeeping of the ENCLOSING loop is skipped — its body runs once instead of the stated number of times (D26)
+        LEN = "%s.1" % INS
+        lens = [a for a in q.cmp_atoms(st) if LEN in a[1] and ("(0, " in a[1] or ", 0)" in a[1] or "(1, " in a[1] or ", 1)" in a[1]) and "try(%s)" % LAST not in a[1]]
+        if lens:
+            r.undecided("state/empty-body", "the body length is compared with a constant (%s): whether that keeps empty bodies from being pushed is not decided" % lens[0][1][:100])
+        else:
+            r.violation("state/empty-body", "Loop(n, 0) pushes a loop state with end = begin − 1 (no test of the body length): [PushI 0, Loop(3,3), PushI 1, Add, Loop(2,0), Noop, Noop] "
+                        "yields 1 — the enclosing loop's body runs once instead of three times", st.where(pushes[0][0]))
 
 
 def r5_length_guards(ctx):
@@ -454,6 +470,40 @@ def r8_weight_accumulates(ctx):
                 r.violation("wrap@%s|%s" % (b.nname.split("::")[-1], last), "%s in %s: a weight past 2^128 wraps around to a small one, and the fee with it" % (last, b.nname.split("::")[-1]), b.where(bi))
 
 
+def r9_paid_before_run(ctx):
+    """'a small, cheap transaction cannot make validators do unbounded work': the work a covenant may cause is bounded by its weight, and the weight is what the
+    fee pays for — so a transaction that does not pay its minimum fee must be turned away BEFORE its covenants run.  (D22: apply_tx_batch_impl executed the
+    covenants of the whole batch first and compared fee and minimum fee only afterwards, in create_next_state: a fee-0 transaction with a 77-byte covenant of
+    weight 4·10^7 kept the validator busy for seconds and was then rejected, free of charge, as often as it was resubmitted.)"""
+    r = ctx.rule("R9", "apply_tx_batch_impl: every batch member passes the fee gate (tx.fee < base_fee(tx, this.fee_multiplier, 0, weight) ⇒ Err) before check_tx_validity / DoscMint verification run", positional=False)
+    impl = ctx.body("melstf::state::applytx::apply_tx_batch_impl", r)
+    work = q.effect_sites(ctx.prog, impl, "check_tx_validity") + q.effect_sites(ctx.prog, impl, "validate_and_get_doscmint_speed")
+    if not work:
+        r.undecided("paid-before-run", "no call of check_tx_validity / validate_and_get_doscmint_speed found under apply_tx_batch_impl")
+        return
+    gates = [(e, c, bi) for e, c, bi in q.pick_atoms(impl, lambda c: c.startswith("Lt(") and ".fee" in c and "base_fee(" in c) if c.startswith("Lt(") and ".fee, " in c and "base_fee(" in c]
+    if not gates:
+        r.violation("paid-before-run/missing", "apply_tx_batch_impl runs check_tx_validity (covenant execution) without having compared any transaction's fee with its minimum fee: "
+                    "covenants of transactions that pay nothing are executed to the end before create_next_state rejects them", impl.where(work[0][0]))
+        return
+    g, c, gb = gates[0]
+    loops = [l for l in q.loop_nest(impl) if gb in l[1]]
+    src_ok = bool(loops) and sig(loops[0][3]) in ("$2", "core::slice::<impl [T]>::iter($2)")
+    if not src_ok:
+        r.undecided("paid-before-run/every-tx", "the fee gate is not inside a plain loop over the batch (%s)" % ([sig(l[3]) for l in loops] or "no loop"))
+    else:
+        h, blocks, latches, src = loops[0]
+        entry = q.loop_entry(impl, h, blocks)
+        wo = impl.reachable(entry, removed=[gb])
+        r.check(not any(l in wo for l in latches), "paid-before-run/every-tx", "every batch member is compared with its minimum fee", "a batch member can pass without the fee comparison", impl.where(gb))
+        around = impl.reachable(0, removed=[h])
+        r.check(not any(w[0] in around for w in work), "paid-before-run/first", "validation runs only after the fee loop", "check_tx_validity can run without the fee loop having run", impl.where(work[0][0]))
+    f = force(impl, {g: 1})
+    after = f.reach_from(gb)
+    r.check(not any(w[0] in after for w in work), "paid-before-run/underpaid=>rejected", "an underpaying transaction ends the batch before anything is executed", "with tx.fee < min_fee validation still runs", impl.where(gb))
+    r.check("$1.fee_multiplier" in c and ", 0, " in c, "paid-before-run/min-fee", "minimum fee = base_fee(tx, this.fee_multiplier, 0, covenant weights)", "the gate compares with %s" % c[:200], impl.where(gb))
+
+
 def shared(ctx):
     """'its weight — the quantity the spender is charged for': the fee is computed from covenant_weight_from_bytes, the bound on the executed steps from the weight of the
     decoded program; C12.T8 decides that the two are one number (whole-program weighing, not a sum over separately decoded pieces)."""
@@ -462,4 +512,4 @@ def shared(ctx):
     core.import_rules(ctx, [c12.t8_one_weight], "X12")
 
 
-RULES = [r1_min_weight, r2_loop_weight, r3_forward_pc, r4_nesting, r5_length_guards, r6_linear_weighing, r7_once_per_tx, r8_weight_accumulates, shared]
+RULES = [r1_min_weight, r2_loop_weight, r3_forward_pc, r4_nesting, r5_length_guards, r6_linear_weighing, r7_once_per_tx, r8_weight_accumulates, r9_paid_before_run, shared]
